@@ -159,6 +159,14 @@ def run_history(rec, case):
         for step in range(nact):
             if step and step % 40 == 0:
                 checkpoint()
+            if srv == 'A' and step == nact // 3 and case['i'] % 3 == 0:
+                # the ASGI server ends one lifespan scope and carries on with
+                # the same application object (a reload, a test client)
+                rec.count('lifespan_cycles_mid_history')
+                evs = sim.lifespan_cycle()
+                if evs != ['lifespan.startup.complete',
+                           'lifespan.shutdown.complete']:
+                    V('lifespan-cycle', 'lifespan events %r' % (evs,))
             live = live_ref()
             k = rng.random()
             if (k < 0.18 or not live) and len(live) < maxs:
